@@ -11,6 +11,7 @@
 #include <ctime>
 #include <functional>
 #include <map>
+#include <cerrno>
 #include <set>
 #include <string>
 #include <unordered_set>
@@ -32,6 +33,12 @@ void __lsan_enable(void);
 }
 
 namespace v {
+
+// Process environment that a case ran under is part of the case: the time zone (every second worker runs in a zone that is not
+// UTC - nothing about JWT time claims depends on local time). It is recorded in every replay object ("_tz") and restored on replay.
+inline std::string &case_tz() { static std::string *z = new std::string; return *z; }
+inline std::string with_env(const std::string &json) { if (json.empty() || json[0] != '{') return json; std::string ins = "\"_tz\":\"" + case_tz() + "\""; return json.size() > 1 && json[1] == '}' ? "{" + ins + "}" : "{" + ins + "," + json.substr(1); }
+inline void apply_tz(const std::string &z) { case_tz() = z; if (z.empty()) unsetenv("TZ"); else setenv("TZ", z.c_str(), 1); tzset(); }
 
 // ------------------------------------------------------------------ misc
 inline uint64_t fnv(const void *p, size_t n, uint64_t h = 1469598103934665603ULL) {
@@ -186,7 +193,7 @@ struct Stats {
   bool violation(const std::string &sig, const std::string &what, const std::string &replay_json) {
     if (is_known(sig)) { known_hits[sig]++; return false; }
     for (auto &v : violations) if (v.signature == sig) return true;
-    if (violations.size() < 20) violations.push_back({sig, what, replay_json});
+    if (violations.size() < 20) violations.push_back({sig, what, with_env(replay_json)});
     return true;
   }
   void load_known(const char *path) {
@@ -224,7 +231,7 @@ inline void on_death() {
   if (!alive()) return;
   Stats &s = stats();
   if (!s.out_path.empty() && cur_case()) {
-    std::string c = cur_case()();
+    std::string c = with_env(cur_case()());
     FILE *f = fopen((s.out_path + ".cur").c_str(), "w");
     if (f) { fputs(c.c_str(), f); fclose(f); }
   }
@@ -248,6 +255,10 @@ inline Args parse_args(int argc, char **argv) {
     else if (k.rfind("--", 0) == 0) { a.kv[k.substr(2)] = val; i++; }
   }
   stats().out_path = a.out;
+  { static const char *ZONES[] = {"", "JST-9", "", "EST5EDT,M3.2.0,M11.1.0", "", "IST-5:30", "", "NZST-12NZDT,M9.5.0,M4.1.0/3"};
+    std::string z = ZONES[a.worker & 7];
+    if (!a.replay.empty()) { z = ""; FILE *f = fopen(a.replay.c_str(), "rb"); if (f) { char buf[4096]; size_t n = fread(buf, 1, sizeof buf - 1, f); buf[n] = 0; fclose(f); const char *p = strstr(buf, "\"_tz\""); if (p) { p += 5; while (*p == ' ' || *p == ':') p++; if (*p == '"') { p++; const char *e = strchr(p, '"'); if (e) z.assign(p, e - p); } } } }
+    apply_tz(z); }
   if (!a.known.empty()) stats().load_known(a.known.c_str());
   __sanitizer_set_death_callback(on_death);
   atexit([] { alive() = false; });
@@ -302,7 +313,7 @@ inline const char *prov_name(int p) { return p ? "gnutls" : "openssl"; }
 // libjwt's contract asks for a clean one. (The fuzz targets take the state of the queue from an input bit; the command-line tools run with a clean queue.)
 extern "C" { void ERR_clear_error(void); void ERR_new(void); void ERR_set_debug(const char *file, int line, const char *func); void ERR_set_error(int lib, int reason, const char *fmt, ...); }
 inline void pollute_openssl_error_queue() { ERR_clear_error(); ERR_new(); ERR_set_debug("verif-harness", 0, "unrelated"); ERR_set_error(128 /* ERR_LIB_USER */, 101, "left over by the application"); }
-inline bool set_provider(int p, bool pollute = true) { bool ok = jwt_set_crypto_ops(prov_name(p)) == 0; if (pollute) pollute_openssl_error_queue(); else ERR_clear_error(); return ok; }
+inline bool set_provider(int p, bool pollute = true) { bool ok = jwt_set_crypto_ops(prov_name(p)) == 0; if (pollute) { pollute_openssl_error_queue(); errno = ERANGE; /* left over by an unrelated earlier call of the application */ } else { ERR_clear_error(); errno = 0; } return ok; }
 
 }  // namespace v
 
